@@ -5,7 +5,25 @@ import z3
 from pyvc import npsym as N
 from pyvc import terms as T
 from pyvc.contract import Contract, register
+from pyvc.ctx import PathAbort
 from pyvc.values import Arr
+
+
+def seq_at(shape):
+    """q -> element q of a shape given as Arr (symbolic length) or as a Python tuple of terms."""
+    if isinstance(shape, Arr):
+        return lambda q: T.tz(shape.fn(q))
+    items = list(shape)
+
+    def at(q):
+        if isinstance(q, int):
+            return T.tz(items[q])
+        r = T.tz(items[-1]) if items else z3.IntVal(0)
+        for k in range(len(items) - 2, -1, -1):
+            r = z3.If(q == k, T.tz(items[k]), r)
+        return r
+
+    return at
 
 
 @register
@@ -236,11 +254,15 @@ class tt_sub2ind(Contract):
     def _inr(self, S, a):
         srow = N.seq_as_row(S.ctx, a["shape"])
         subs = a["subs"]
-        return srow, S.forall(0, subs.shape[0], lambda i: N.INRNG(srow, subs.rowfn(i)))
+        rf = N.ensure_rows(S.ctx, subs)
+        return srow, S.forall(0, subs.shape[0], lambda i: N.INRNG(srow, rf(i)))
 
     def raises_when(self, S, a):
         srow, inr = self._inr(S, a)
         yield "subscript-outside-shape", S.Not(inr)
+
+    def fresh_result(self, S, a):
+        return Arr.fresh("sub2ind", (a["subs"].shape[0],), "int")
 
     def ensures(self, S, a, ret):
         subs = a["subs"]
@@ -248,7 +270,8 @@ class tt_sub2ind(Contract):
         srow = N.seq_as_row(S.ctx, a["shape"])
         RAV = N.RAVELC if a.get("order", "F") == "C" else N.RAVELF
         yield "one-index-per-row", S.And(ret.ndim == 1, S.eq(ret.shape[0], k))
-        yield "index-is-RAVEL-of-row", S.forall(0, k, lambda i: ret.fn(i) == RAV(srow, subs.rowfn(i)))
+        rf = N.ensure_rows(S.ctx, subs)
+        yield "index-is-RAVEL-of-row", S.forall(0, k, lambda i: ret.fn(i) == RAV(srow, rf(i)))
         yield "index-in-0..prod-1", S.forall(
             0, k, lambda i: S.And(0 <= ret.fn(i), ret.fn(i) < N.PRODR(srow))
         )
@@ -283,16 +306,34 @@ class tt_ind2sub(Contract):
         a["__P__"] = P
         return a
 
+    @staticmethod
+    def _ghosts(S, a):
+        if "__old_idx__" not in a:
+            # call site: the value of idx at the call, P = PROD_R(shape row)
+            if not (isinstance(a["idx"], Arr) and a["idx"].ndim == 1):
+                raise PathAbort("tt_ind2sub contract: idx is not a 1-D array at this call site")
+            a["__old_idx__"] = N.snap(a["idx"]).fn
+            a["__P__"] = N.PRODR(N.seq_as_row(S.ctx, a["shape"]))
+        return a["__old_idx__"], a["__P__"]
+
+    def fresh_result(self, S, a):
+        k = a["idx"].shape[0]
+        Nn = a["shape"].shape[0] if isinstance(a["shape"], Arr) else len(a["shape"])
+        r = N.fresh_row_matrix("ind2sub", k, Nn)
+        S.assume(N.row_matrix_wf(r))
+        return r
+
     def raises_when(self, S, a):
-        old, P = a["__old_idx__"], a["__P__"]
+        old, P = self._ghosts(S, a)
         k = a["idx"].shape[0]
         yield "index-out-of-range", S.exists(0, k, lambda i: S.Or(old(i) < -P, old(i) >= P))
 
     def ensures(self, S, a, ret):
-        old, P = a["__old_idx__"], a["__P__"]
+        old, P = self._ghosts(S, a)
         k = a["idx"].shape[0]
-        Nn = a["shape"].shape[0]
+        Nn = a["shape"].shape[0] if isinstance(a["shape"], Arr) else len(a["shape"])
         srow = N.seq_as_row(S.ctx, a["shape"])
+        shp_at = seq_at(a["shape"])
         UNR = N.UNRAVELC if a.get("order", "F") == "C" else N.UNRAVELF
         RAV = N.RAVELC if a.get("order", "F") == "C" else N.RAVELF
         yield "k-by-N", S.And(ret.ndim == 2, S.eq(ret.shape[0], k), S.Or(S.eq(k, 0), S.eq(ret.shape[1], Nn)))
@@ -301,7 +342,7 @@ class tt_ind2sub(Contract):
             0, k, lambda i: S.forall(0, Nn, lambda m: ret.fn(i, m) == N.relem(UNR(srow, wrap(old(i))), m))
         )
         yield "row-inside-shape", S.forall(
-            0, k, lambda i: S.forall(0, Nn, lambda m: S.And(0 <= ret.fn(i, m), ret.fn(i, m) < a["shape"].fn(m)))
+            0, k, lambda i: S.forall(0, Nn, lambda m: S.And(0 <= ret.fn(i, m), ret.fn(i, m) < shp_at(m)))
         )
         yield "inverse-of-sub2ind", S.forall(0, k, lambda i: RAV(srow, UNR(srow, wrap(old(i)))) == wrap(old(i)))
 
